@@ -45,6 +45,8 @@ PROPS = {
     'C08': dict(engine='pair', pool='x', modes=['frame'], witness=False, values=(8, 80)),
     # the model's relation is the trait (fung lines: any disagreement is a wrong trait value on that pair)
     'C09': dict(engine='pair', pool='f', modes=['fung'], witness=False, witness_ops=['fung', 'dec'], values=(4, 40)),
+    # the model dispatcher's result on a request is, by C14_call / C14_unbound / C14_bad_arguments, the required one
+    'C14': dict(engine='single', name='rpc', builder='build_rpc', runs=[['--mode', 'rpc']], witness=True),
     'C15': dict(witness=False, stages=[
         dict(engine='codec', pool='h', modes=['handles'], values=(6, 60), witness_ops=['enc']),
         dict(engine='single', name='life', source='life_main.cpp', runs=[['--mode', 'uh']])]),
@@ -194,7 +196,10 @@ class Run:
                             'compared; distinct = distinct operation lines (every sequence contains at least one primitive call)')
 
     def single_stage(self):
-        binary = nv.build_single(self.cfg['name'], self.cfg['source'], flags=self.cfg.get('flags'))
+        if self.cfg.get('builder'):
+            binary = getattr(nv, self.cfg['builder'])()
+        else:
+            binary = nv.build_single(self.cfg['name'], self.cfg['source'], flags=self.cfg.get('flags'))
         evaluations = 0
         distinct = set()
         for run in self.cfg['runs']:
